@@ -139,18 +139,20 @@ theorem unbind_event_runs_documented_decision (s : State) (pod : Pod) (hg : guar
         (docAction (dinOf CRs.none (unassignAll s (ipsOfKey s (keyOf pod))).1 (keyOf pod) (policyOf pod))) := by
   rw [fact_plugin_guards, unbind_eq s pod hg hprov, decision_table _ hwf]
 
-/-- The resync path: for a record that is re-read under the same key, whose pod is found not running and whose provider
-    unassign (if any) succeeds, the closure carries out the documented action with the STORED policy `r.policy` of the
-    re-read record (not the policy of any pod object). -/
+/-- The resync path: for a record that is re-read under the same key, whose pod is found not running (nor any pod that
+    holds another record of the key) and whose provider unassign (if any) succeeds, the closure carries out the
+    documented action with the STORED policy `r.policy` of the re-read record (not the policy of any pod object). -/
 theorem resync_runs_documented_decision_with_stored_policy (t : State) (ip : IP) (r0 r : Rec)
     (hr : Tbl.get t.alloc ip = some r) (hk : r.key = r0.key)
     (hrun : (podRunning facts t r0.key.pod r0.key.ns r.uid).2 = false)
-    (hprov : (provUnassign (podRunning facts t r0.key.pod r0.key.ns r.uid).1 r.node ip).2 = true)
+    (hown : (keyOwnedByRunningPod facts (podRunning facts t r0.key.pod r0.key.ns r.uid).1 r0.key r.uid).2 = false)
+    (hprov : (provUnassign (keyOwnedByRunningPod facts (podRunning facts t r0.key.pod r0.key.ns r.uid).1 r0.key r.uid).1
+      r.node ip).2 = true)
     (hwf : (dinOf CRs.none (resyncPre t ip r0.key r) r0.key r.policy).WF) :
     resyncOne facts t ip r0 =
       (exec (resyncPre t ip r0.key r) r0.key (docAction (dinOf CRs.none (resyncPre t ip r0.key r) r0.key r.policy))).1 := by
-  rw [fact_plugin_guards] at hrun hprov ⊢
-  rw [resyncOne_eq t ip r0 r hr hk hrun hprov, decision_table _ hwf]
+  rw [fact_plugin_guards] at hrun hown hprov ⊢
+  rw [resyncOne_eq t ip r0 r hr hk hrun hown hprov, decision_table _ hwf]
 
 /-- The extension by scalable custom resources used in the decision table is conservative: without custom resources
     (the cluster of the plugin model) `unbindOtherX` / `supportReserveX` ARE the functions `gxdrv_plugin` executes, and
@@ -165,20 +167,18 @@ theorem decision_functions_are_the_models (cr : CRs) (s : State) (k : Key) (poli
 
 /-- "Once pending pod events have been handled and one resync pass has run, no IP stays assigned to a pod that no longer
     exists unless its policy reserves it."  For EVERY finite history `ms` of moves from `init c` (any choices, fault
-    indices, stale listers, delayed or DROPPED events, restarts; `reloadsClean`: the fault of a reload does not hit one
-    of its store deletes) that ends with the listers in sync, and every admissible processing order of one fault-free
+    indices, stale listers, delayed or DROPPED events, reloads, restarts) that ends with the listers in sync, and every admissible processing order of one fault-free
     resync pass: every record that still names a pod (`namesPod`) which does not exist or has finished (`podGone`) is
     one the documented policy keeps when evaluated with the record's STORED policy, or its stored policy is never
     (`policyReserves`).  The event queue is not required to be empty: lost events are covered. -/
-theorem quiescent_no_orphan (c : Conf) (ms : List Move) (hcl : reloadsClean ms = true)
-    (hsync : InSync (run facts (init c) ms)) (order : List IP)
+theorem quiescent_no_orphan (c : Conf) (ms : List Move) (hsync : InSync (run facts (init c) ms)) (order : List IP)
     (hadm : (step facts (run facts (init c) ms) (.resync order 0 0)).2.res = .ok) :
     ∀ ip r, Tbl.get (step facts (run facts (init c) ms) (.resync order 0 0)).1.alloc ip = some r →
       namesPod r.key → podGone (run facts (init c) ms) r.key →
       policyReserves (step facts (run facts (init c) ms) (.resync order 0 0)).1 r := by
   rw [fact_plugin_guards] at hsync hadm ⊢
   intro ip r hg hn hgone
-  have hc := coh_withFaults _ 0 0 (coh_run ms (init c) (coh_init c) hcl)
+  have hc := coh_withFaults _ 0 0 (coh_run ms (init c) (coh_init c))
   have := quiescent_core (withFaults (run Facts.good (init c) ms) 0 0) order hc rfl rfl hsync.1 hadm ip r hg hn hgone
   unfold policyReserves
   rcases this with h | h
@@ -187,13 +187,12 @@ theorem quiescent_no_orphan (c : Conf) (ms : List Move) (hcl : reloadsClean ms =
 
 /-- In particular (same hypotheses): no address of a DEFAULT-policy record stays assigned to a vanished pod, and an
     IMMUTABLE one only while its workload exists and (statefulset) its index is below the replicas. -/
-theorem quiescent_default_released (c : Conf) (ms : List Move) (hcl : reloadsClean ms = true)
-    (hsync : InSync (run facts (init c) ms)) (order : List IP)
+theorem quiescent_default_released (c : Conf) (ms : List Move) (hsync : InSync (run facts (init c) ms)) (order : List IP)
     (hadm : (step facts (run facts (init c) ms) (.resync order 0 0)).2.res = .ok) :
     ∀ ip r, Tbl.get (step facts (run facts (init c) ms) (.resync order 0 0)).1.alloc ip = some r →
       namesPod r.key → podGone (run facts (init c) ms) r.key → r.policy ≠ 0 := by
   intro ip r hg hn hgone h0
-  rcases quiescent_no_orphan c ms hcl hsync order hadm ip r hg hn hgone with h | h
+  rcases quiescent_no_orphan c ms hsync order hadm ip r hg hn hgone with h | h
   · apply h
     unfold docAction docKeeps
     simp [h0]
@@ -215,9 +214,9 @@ theorem stored_policy_preserved_by_reserve_store (s : State) (k newK : Key) (a :
 
 /-- memory and store agree (key, policy, node, uid per address) after every history - the reason the decision taken at
     resync from the cached record is a decision about the STORED policy -/
-theorem reachable_coherent (c : Conf) (ms : List Move) (hcl : reloadsClean ms = true) :
+theorem reachable_coherent (c : Conf) (ms : List Move) :
     Coherent (run facts (init c) ms) := by
-  rw [fact_plugin_guards]; exact coh_run ms (init c) (coh_init c) hcl
+  rw [fact_plugin_guards]; exact coh_run ms (init c) (coh_init c)
 
 /-- Delivering an event and running a resync pass (any order, any fault plan) never change the policy of a record that
     survives them - in memory and in the store. -/
@@ -265,14 +264,14 @@ set_option maxRecDepth 100000 in
     an admissible (empty) checklist - and 10.10.0.2 is still held under `dp_ns1_d_` with stored policy immutable although
     the deployment is gone, i.e. the documented action for it is `release`. -/
 theorem deployment_ips_within_replicas_counter :
-    reloadsClean D12.d12 = true ∧ (run facts (init D12.conf2) D12.d12).events = [] ∧
+    (run facts (init D12.conf2) D12.d12).events = [] ∧
     (run facts (init D12.conf2) D12.d12).vPods = (run facts (init D12.conf2) D12.d12).pods ∧
     (run facts (init D12.conf2) D12.d12).vApps = (run facts (init D12.conf2) D12.d12).apps ∧
     (Tbl.get (run facts (init D12.conf2) D12.d12).alloc 168427522).map (fun r => (r.key, r.policy)) =
       some (D12.dpPrefixKey, 1) ∧
     docAction (dinOf CRs.none (run facts (init D12.conf2) D12.d12) D12.dpPrefixKey 1) = .release := by
   rw [fact_plugin_guards, D12.run_d12]
-  refine ⟨by decide, by decide, by decide, by decide, by decide, by decide⟩
+  refine ⟨by decide, by decide, by decide, by decide, by decide⟩
 
 /-! ### non-vacuity -/
 
@@ -299,11 +298,11 @@ def lost : List Move := [
   .listerSync true true ]
 
 set_option maxRecDepth 100000 in
-example : reloadsClean lost = true ∧ (run facts (init D12.conf2) lost).vPods = (run facts (init D12.conf2) lost).pods ∧
+example : (run facts (init D12.conf2) lost).vPods = (run facts (init D12.conf2) lost).pods ∧
     (run facts (init D12.conf2) lost).vApps = (run facts (init D12.conf2) lost).apps ∧
     (Tbl.get (run facts (init D12.conf2) lost).alloc 168427522).isSome = true ∧
     (step facts (run facts (init D12.conf2) lost) (.resync [168427522] 0 0)).2.res = .ok ∧
     Tbl.get (step facts (run facts (init D12.conf2) lost) (.resync [168427522] 0 0)).1.alloc 168427522 = none := by
-  refine ⟨by decide, by decide, by decide, by decide, by decide, by decide⟩
+  refine ⟨by decide, by decide, by decide, by decide, by decide⟩
 
 end Galaxy.Props.C03
